@@ -50,3 +50,9 @@ add('C11','model_checking','differential explicit-state search: every base histo
  'For every base history up to the depth, every position/phase and every CheckTx / simulate / store-query / custom-query call, the probed replica must report identical block results, validator updates and app hashes.',_chain_note)
 add('C13','model_checking','differential explicit-state search with restarts and old-height reads on the real app vs a silent replica',
  'Histories in which state changes follow reads, with node restarts (cold caches) as menu events and queries at older heights inserted at every position; the probed replica must agree with the silent one block by block.',_chain_note+' Dispatch/relay side effects on claims are exercised by the relay checks.')
+add('C18','model_checking','exhaustive case enumeration, differential replicas of the real app (block with the send vs empty block)',
+ 'All combinations of pre-state, sender, recipient and boundary amount: the balance changes of all accounts must equal the exact transfer model; rejected sends leave the app hash untouched.',_chain_note)
+add('C14','model_checking','exhaustive enumeration of message kind x signer relation x signature corruption, differential replicas of the real app',
+ 'Every unauthorized combination must return a non-zero code and leave the app hash identical to a replica that executed an empty block instead.',_chain_note+' Authorization reference written from the docs.')
+add('C15','model_checking','exhaustive enumeration of message x declared-fee variant x horizon, differential replicas of the real app',
+ 'Exact fee accounting against a reference replica for succeeding and failing messages, malformed fee coin lists, payers with exactly the fee, and after the next block.',_chain_note)
